@@ -160,7 +160,9 @@ ArrivalStrict(acc, e, h) ==
 ArrivalIssues(strict, prev, prevRows, obs, obsRows, e, h) ==
   LET recorded == obsRows > prevRows \/ (obs # prev)
   IN
-  IF strict.k \in {"unknown", "dup"} THEN {}
+  IF strict.k = "unknown" THEN {}
+  ELSE IF strict.k = "dup" THEN      \* copy of an entry that is recorded but not executed (pending / rejected): inert
+     (IF recorded THEN {Issue("C06", <<"copy of a recorded entry was processed again", e.id, h, obs>>)} ELSE {})
   ELSE IF strict.k = "ignore" THEN
      (IF recorded THEN {Issue(IF e.auth = "Valid" /\ ~e.canon THEN "C20" ELSE "C05",
                               <<"entry that must be ignored was recorded", e.id, e.auth, h, obs>>)} ELSE {})
